@@ -159,25 +159,29 @@ func genWeighted(e *genv) []byte {
 	a := &asm{}
 	h := 0
 	n := 8 + r.Intn(110)
-	var pendingLabels []int
+	var pendingLabels [][2]int // label, stack height at the jump
 	var boundLabels []int
 	smallOff := func() { a.pushU(uint64(r.Intn(8)) * 32) }
 	off := func() {
-		switch r.Intn(12) {
+		switch r.Intn(60) {
 		case 0:
 			a.push(boundaryOffsets[r.Intn(len(boundaryOffsets))])
-		case 1:
+		case 1, 2, 3, 4, 5:
 			a.pushU(uint64(r.Intn(300)))
+		case 6:
+			a.pushU([]uint64{31, 32, 33, 1 << 16}[r.Intn(4)])
 		default:
 			smallOff()
 		}
 	}
 	size := func() {
-		switch r.Intn(14) {
+		switch r.Intn(60) {
 		case 0:
 			a.push(boundaryOffsets[r.Intn(len(boundaryOffsets))])
-		case 1:
+		case 1, 2, 3, 4:
 			a.pushU(0)
+		case 5:
+			a.pushU([]uint64{31, 32, 33, 1 << 16}[r.Intn(4)])
 		default:
 			a.pushU(uint64(r.Intn(100)))
 		}
@@ -290,8 +294,12 @@ func genWeighted(e *genv) []byte {
 				off()
 				a.op(opCODECOPY)
 			case 2:
-				size()
-				off()
+				if r.Intn(3) != 0 {
+					a.op(opRETURNDATASIZE).pushU(0)
+				} else {
+					size()
+					off()
+				}
 				off()
 				a.op(opRETURNDATACOPY)
 			case 3:
@@ -338,11 +346,11 @@ func genWeighted(e *genv) []byte {
 				l := a.newLabel()
 				a.pushLabel(l).op(opJUMPI)
 				h--
-				pendingLabels = append(pendingLabels, l)
+				pendingLabels = append(pendingLabels, [2]int{l, h})
 			case 3: // forward jump
 				l := a.newLabel()
 				a.pushLabel(l).op(opJUMP)
-				pendingLabels = append(pendingLabels, l)
+				pendingLabels = append(pendingLabels, [2]int{l, h})
 			case 4: // backward conditional jump (a loop that usually ends by gas or by the condition)
 				if len(boundLabels) == 0 || h < 1 {
 					continue
@@ -353,8 +361,11 @@ func genWeighted(e *genv) []byte {
 			if len(pendingLabels) > 0 && r.Intn(2) == 0 {
 				l := pendingLabels[0]
 				pendingLabels = pendingLabels[1:]
-				a.bind(l)
-				boundLabels = append(boundLabels, l)
+				a.bind(l[0])
+				if l[1] < h {
+					h = l[1] // the shallower of the two ways to get here
+				}
+				boundLabels = append(boundLabels, l[0])
 			}
 		case x < 935: // logs
 			k := r.Intn(5)
@@ -400,8 +411,11 @@ func genWeighted(e *genv) []byte {
 		case x < 982:
 			a.op(opGAS)
 			h++
-		case x < 990:
+		case x < 986:
 			a.op(byte(r.Intn(256)))
+		case x < 992:
+			a.push(value(r))
+			h++
 		default: // terminators
 			switch r.Intn(6) {
 			case 0:
@@ -433,7 +447,10 @@ func genWeighted(e *genv) []byte {
 		}
 	}
 	for _, l := range pendingLabels {
-		a.bind(l)
+		a.bind(l[0])
+		if l[1] < h {
+			h = l[1]
+		}
 	}
 	// epilogue: expose the top of the stack and the first memory words
 	k := min(h, 3)
@@ -541,10 +558,12 @@ func (g *gram) expr(d int) {
 
 func (g *gram) memOff() {
 	r := g.r
-	switch r.Intn(16) {
+	switch r.Intn(48) {
 	case 0:
 		g.a.push(boundaryOffsets[r.Intn(len(boundaryOffsets))])
-	case 1:
+	case 1, 2:
+		g.a.pushU([]uint64{31, 32, 33, 1 << 16}[r.Intn(4)])
+	case 3, 4, 5:
 		g.a.pushU(uint64(r.Intn(512)))
 	default:
 		g.a.pushU(g.slot())
@@ -562,10 +581,12 @@ func (g *gram) srcOff() {
 
 func (g *gram) length() {
 	r := g.r
-	switch r.Intn(16) {
+	switch r.Intn(48) {
 	case 0:
 		g.a.push(boundaryOffsets[r.Intn(len(boundaryOffsets))])
 	case 1, 2:
+		g.a.pushU([]uint64{31, 32, 33, 1 << 16}[r.Intn(4)])
+	case 3, 4, 5, 6:
 		g.a.pushU(0)
 	default:
 		g.a.pushU(uint64(r.Intn(97)))
@@ -621,7 +642,11 @@ func (g *gram) callStmt(target func(), kind byte) {
 
 func (g *gram) returnDataCopy() {
 	r, a := g.r, g.a
-	switch r.Intn(8) {
+	x := r.Intn(24)
+	if x >= 8 {
+		x = []int{0, 0, 2, 6}[x%4] // mostly the variants that succeed
+	}
+	switch x {
 	case 0: // exactly everything
 		a.op(opRETURNDATASIZE).pushU(0).pushU(0x2c0).op(opRETURNDATACOPY)
 	case 1: // one byte beyond: must fail
@@ -635,6 +660,11 @@ func (g *gram) returnDataCopy() {
 	case 5: // tail
 		a.pushU(1).op(opRETURNDATASIZE).op(opSUB).pushU(1) // len = size-1 ... (only sensible when size>=1; otherwise wraps and fails)
 		a.pushU(0x2c0).op(opRETURNDATACOPY)
+	case 6: // a guarded prefix: min(size, 32) bytes from offset 0
+		l := a.newLabel()
+		a.pushU(32).op(opRETURNDATASIZE, opLT).pushLabel(l).op(opJUMPI)
+		a.pushU(32).pushU(0).pushU(0x2c0).op(opRETURNDATACOPY)
+		a.bind(l)
 	default:
 		g.length()
 		g.srcOff()
@@ -896,21 +926,21 @@ func genGrammar(e *genv, stmts int) []byte {
 // ---- worlds ----
 
 func gasLimit(r *rand.Rand) uint64 {
-	switch r.Intn(20) {
+	switch r.Intn(40) {
 	case 0:
 		return 0
 	case 1:
 		return uint64(r.Intn(100))
-	case 2:
+	case 2, 3:
 		return uint64(r.Intn(30000))
-	case 3, 4:
+	case 4, 5, 6, 7, 8, 9:
 		return 30000000
-	case 5:
+	case 10, 11, 12:
 		return uint64(r.Int63n(30000001))
-	case 6, 7, 8:
+	case 13, 14, 15, 16:
 		return 100000 + uint64(r.Intn(400000))
 	}
-	return 1000000 + uint64(r.Intn(3000000))
+	return 2000000 + uint64(r.Intn(8000000))
 }
 
 func callData(r *rand.Rand) []byte {
